@@ -9,6 +9,8 @@
 //     read/write) together with the barrier that dominates it:
 //     lock        Lock() … Unlock() region of the guard in the same function
 //     deferLock   Lock(); defer Unlock() in the same function
+//     rlock / deferRLock / confinedR   the same with RLock/RUnlock of a sync.RWMutex: these
+//                 guard READS only (a write under a read lock fails all_sites_guarded)
 //     confined    the function is only reachable from regions that hold the guard (callers listed)
 //     onceBody    inside (or only reachable from) the function passed to guard.Do
 //     afterOnce   after guard.Do(…) in the same function (or only reachable from such places)
@@ -17,7 +19,8 @@
 //     pkgInit     package-level initialiser
 //     teardown    read inside a Close method (exclusive by the io.Closer contract)
 //     none        nothing recognised  — fails the obligation all_sites_guarded
-//   - every `go` statement of these packages with the WaitGroup join that orders it;
+//   - every `go` statement of these packages with the join that orders its writes before the
+//     spawner's reads: wg.Wait() / <-done after close(done) / one channel receive per goroutine;
 //   - every place where a second lock / Once is acquired while one is held;
 //   - the flag bits newTempFile passes to os.OpenFile and whether it retries on EEXIST.
 //
@@ -113,6 +116,7 @@ type lfRegion struct {
 	base     string // source text of the expression the guard is selected from ("" for package level)
 	from, to token.Pos
 	deferred bool
+	read     bool // RLock … RUnlock of a sync.RWMutex: guards reads only
 	lockPos  token.Pos
 }
 
@@ -400,14 +404,18 @@ func (p *lfPkg) scanStmts(u *lfUnit, list []ast.Stmt, end token.Pos, handled map
 				case !ok:
 					p.errorf(c.Pos(), "sync primitive is not a package variable or struct field: %s", p.src(c))
 					handled[c] = true
-				case m == "Lock":
+				case m == "Lock" || m == "RLock":
 					handled[c] = true
-					r := &lfRegion{guard: g, base: base, from: st.End(), lockPos: st.Pos()}
+					unlock := "Unlock"
+					if m == "RLock" {
+						unlock = "RUnlock"
+					}
+					r := &lfRegion{guard: g, base: base, from: st.End(), lockPos: st.Pos(), read: m == "RLock"}
 					found := false
 					for j := i + 1; j < len(list) && !found; j++ {
 						switch s2 := list[j].(type) {
 						case *ast.DeferStmt:
-							if g2, b2, m2, ok2 := p.guardCall(s2.Call); ok2 && m2 == "Unlock" && g2 == g && b2 == base {
+							if g2, b2, m2, ok2 := p.guardCall(s2.Call); ok2 && m2 == unlock && g2 == g && b2 == base {
 								if j != i+1 {
 									p.errorf(s2.Pos(), "defer %s is not directly after the Lock", p.src(s2.Call))
 								}
@@ -416,7 +424,7 @@ func (p *lfPkg) scanStmts(u *lfUnit, list []ast.Stmt, end token.Pos, handled map
 							}
 						case *ast.ExprStmt:
 							if c2, ok := s2.X.(*ast.CallExpr); ok {
-								if g2, b2, m2, ok2 := p.guardCall(c2); ok2 && m2 == "Unlock" && g2 == g && b2 == base {
+								if g2, b2, m2, ok2 := p.guardCall(c2); ok2 && m2 == unlock && g2 == g && b2 == base {
 									handled[c2] = true
 									r.to, found = s2.Pos(), true
 									// an explicit region must not be left early
@@ -440,7 +448,7 @@ func (p *lfPkg) scanStmts(u *lfUnit, list []ast.Stmt, end token.Pos, handled map
 						}
 					}
 					if !found {
-						p.errorf(c.Pos(), "Lock without a matching Unlock / defer Unlock in the same block: %s", p.src(c))
+						p.errorf(c.Pos(), "%s without a matching %s / defer %s in the same block: %s", m, unlock, unlock, p.src(c))
 					} else {
 						u.regions = append(u.regions, r)
 					}
@@ -751,13 +759,15 @@ func (p *lfPkg) implementations(iface types.Type, method string) []*lfUnit {
 // ---------------------------------------------------------------------------------------------
 // analyses
 
+// heldAt returns the region of guard g that covers pos (a write-lock region when there is one).
 func (u *lfUnit) heldAt(pos token.Pos, g *types.Var) *lfRegion {
+	var found *lfRegion
 	for _, r := range u.regions {
-		if r.guard == g && r.from <= pos && pos < r.to {
-			return r
+		if r.guard == g && r.from <= pos && pos < r.to && (found == nil || !r.read) {
+			found = r
 		}
 	}
-	return nil
+	return found
 }
 
 func (u *lfUnit) afterOnce(pos token.Pos, g *types.Var, base string) bool {
@@ -1158,7 +1168,7 @@ func lfBaseOf(e ast.Expr) ast.Expr {
 	return nil
 }
 
-func (p *lfPkg) sitesOf(t *lfTarget, fr *lfFresh, conf map[*lfUnit]bool, onceBody, afterOnce map[*lfUnit]bool) []lfSite {
+func (p *lfPkg) sitesOf(t *lfTarget, fr *lfFresh, conf, confR map[*lfUnit]bool, onceBody, afterOnce map[*lfUnit]bool) []lfSite {
 	var out []lfSite
 	gname := lfGuardName(p, t.guard)
 	for _, f := range p.files {
@@ -1203,12 +1213,21 @@ func (p *lfPkg) sitesOf(t *lfTarget, fr *lfFresh, conf map[*lfUnit]bool, onceBod
 			switch t.spec.kind {
 			case "mutex":
 				if r := u.heldAt(id.Pos(), t.guard); r != nil && r.base == base {
-					s.barrier = "lock"
-					if r.deferred {
+					switch {
+					case r.read && r.deferred:
+						s.barrier = "deferRLock"
+					case r.read:
+						s.barrier = "rlock"
+					case r.deferred:
 						s.barrier = "deferLock"
+					default:
+						s.barrier = "lock"
 					}
 				} else if conf[u] {
 					s.barrier = "confined"
+					s.via = p.callerNames(u)
+				} else if confR[u] {
+					s.barrier = "confinedR"
 					s.via = p.callerNames(u)
 				}
 			case "once":
@@ -1372,11 +1391,191 @@ type lfGo struct {
 	fn, file      string
 	line          int
 	callee        string
-	deferDone     bool
-	waitLine      int
-	sharedWrites  []string // outer variables assigned inside the goroutine
-	touchedBefore bool     // one of them is used between the go statement and the Wait
-	slotParam     bool     // the goroutine writes only through a parameter bound to &slice[loopvar]
+	join          string   // waitGroup | chanClose | chanRecv | none: what orders the goroutine's writes before the reads
+	joinLine      int      // line of the join in the spawning function (0 = none)
+	sharedWrites  []string // outer variables assigned inside the goroutine (directly or through closures it calls)
+	touchedBefore bool     // one of them (or another slot of the slot slice) is used before the join
+	slotParam     bool     // the goroutine writes through a parameter bound to &slice[loopvar]
+}
+
+// lfRootIdent strips selectors, indexing, dereferences and address-of from an expression.
+func lfRootIdent(e ast.Expr) (*ast.Ident, bool) {
+	through := false
+	for {
+		switch x := ast.Unparen(e).(type) {
+		case *ast.SelectorExpr:
+			e, through = x.X, true
+			continue
+		case *ast.IndexExpr:
+			e, through = x.X, true
+			continue
+		case *ast.StarExpr:
+			e, through = x.X, true
+			continue
+		case *ast.UnaryExpr:
+			if x.Op == token.AND {
+				e = x.X
+				continue
+			}
+		case *ast.Ident:
+			return x, through
+		}
+		return nil, through
+	}
+}
+
+// lfBinding says what a parameter of a function running inside a goroutine stands for.
+type lfBinding struct {
+	slot  int          // > 0: the goroutine literal's own parameter number
+	outer types.Object // a variable of the spawning function
+}
+
+// goWrites collects what the body of a goroutine assigns: variables of the spawning function
+// (written) and parameters of the goroutine literal it writes through (throughParam).  Calls
+// of closures defined in the spawning function and of functions of this package are followed
+// (parameters are substituted), so `grab := func(s *T){ s.x = … }; go func(s *T){ grab(s) }(&xs[i])`
+// is seen as a write through the goroutine's parameter.
+func (p *lfPkg) goWrites(u *lfUnit, gl *ast.FuncLit, fnNode ast.Node, body *ast.BlockStmt, bind map[types.Object]lfBinding,
+	written map[types.Object]bool, throughParam map[int]bool, depth int) {
+	if body == nil || depth > 3 {
+		return
+	}
+	local := func(o types.Object) bool { return o.Pos() >= fnNode.Pos() && o.Pos() <= fnNode.End() }
+	ast.Inspect(body, func(m ast.Node) bool {
+		switch x := m.(type) {
+		case *ast.AssignStmt:
+			for _, l := range x.Lhs {
+				id, through := lfRootIdent(l)
+				if id == nil {
+					continue
+				}
+				o := p.info.Uses[id]
+				if o == nil {
+					continue // := definition
+				}
+				if b, ok := bind[o]; ok {
+					if through {
+						if b.slot > 0 {
+							throughParam[b.slot] = true
+						}
+						if b.outer != nil {
+							written[b.outer] = true
+						}
+					}
+					continue
+				}
+				if _, isVar := o.(*types.Var); isVar && !local(o) && (o.Pos() < gl.Pos() || o.Pos() > gl.End()) {
+					written[o] = true
+				}
+			}
+		case *ast.IncDecStmt:
+			if id, _ := lfRootIdent(x.X); id != nil {
+				if o := p.info.Uses[id]; o != nil {
+					if _, bound := bind[o]; !bound && !local(o) && (o.Pos() < gl.Pos() || o.Pos() > gl.End()) {
+						written[o] = true
+					}
+				}
+			}
+		case *ast.CallExpr:
+			// callee: closure variable of the spawning function, or function of this package
+			var cu *lfUnit
+			switch f := ast.Unparen(x.Fun).(type) {
+			case *ast.Ident:
+				if v, ok := p.info.Uses[f].(*types.Var); ok && u != nil {
+					if rhs := u.localDefs()[v]; len(rhs) == 1 {
+						if fl, ok := ast.Unparen(rhs[0]).(*ast.FuncLit); ok {
+							cu = p.byLit[fl]
+						}
+					}
+				}
+			}
+			if cu == nil {
+				if fn := p.calleeFunc(x.Fun); fn != nil {
+					if s := p.selOf(x.Fun); s == nil || !types.IsInterface(s.Recv()) {
+						cu = p.byFn[fn]
+					}
+				}
+			}
+			if cu == nil {
+				return true
+			}
+			nb := map[types.Object]lfBinding{}
+			args := x.Args
+			for k, a := range args {
+				if k+1 >= len(cu.params) || cu.params[k+1] == nil {
+					continue
+				}
+				id, _ := lfRootIdent(a)
+				if id == nil {
+					continue
+				}
+				o := p.info.Uses[id]
+				if o == nil {
+					continue
+				}
+				if b, ok := bind[o]; ok {
+					nb[cu.params[k+1]] = b
+				} else if _, isVar := o.(*types.Var); isVar && !local(o) && (o.Pos() < gl.Pos() || o.Pos() > gl.End()) {
+					nb[cu.params[k+1]] = lfBinding{outer: o}
+				}
+			}
+			p.goWrites(u, gl, lfUnitNode(cu), cu.body, nb, written, throughParam, depth+1)
+		}
+		return true
+	})
+}
+
+// lfLoopOf returns the innermost for/range statement of unit u that encloses n.
+func (p *lfPkg) lfLoopOf(n ast.Node) ast.Stmt {
+	for x := p.parent[n]; x != nil; x = p.parent[x] {
+		switch l := x.(type) {
+		case *ast.RangeStmt:
+			return l
+		case *ast.ForStmt:
+			return l
+		case *ast.FuncLit, *ast.FuncDecl:
+			return nil
+		}
+	}
+	return nil
+}
+
+// lfSameLoop: two loops run the same number of times (same range operand / same header).
+func (p *lfPkg) lfSameLoop(a, b ast.Stmt) bool {
+	switch x := a.(type) {
+	case *ast.RangeStmt:
+		y, ok := b.(*ast.RangeStmt)
+		return ok && p.src(x.X) == p.src(y.X)
+	case *ast.ForStmt:
+		y, ok := b.(*ast.ForStmt)
+		if !ok || x.Init == nil || y.Init == nil || x.Cond == nil || y.Cond == nil || x.Post == nil || y.Post == nil {
+			return false
+		}
+		return p.src(x.Init) == p.src(y.Init) && p.src(x.Cond) == p.src(y.Cond) && p.src(x.Post) == p.src(y.Post)
+	}
+	return false
+}
+
+// lfRecvFrom: the statement is `<-ch`, `x := <-ch`, `x = <-ch` or `_, ok := <-ch` for channel object ch.
+func (p *lfPkg) lfRecvFrom(st ast.Stmt, ch types.Object) bool {
+	var e ast.Expr
+	switch s := st.(type) {
+	case *ast.ExprStmt:
+		e = s.X
+	case *ast.AssignStmt:
+		if len(s.Rhs) == 1 {
+			e = s.Rhs[0]
+		}
+	}
+	if e == nil {
+		return false
+	}
+	ue, ok := ast.Unparen(e).(*ast.UnaryExpr)
+	if !ok || ue.Op != token.ARROW {
+		return false
+	}
+	id, ok := ast.Unparen(ue.X).(*ast.Ident)
+	return ok && p.info.Uses[id] == ch
 }
 
 func (p *lfPkg) goSites() []lfGo {
@@ -1389,7 +1588,7 @@ func (p *lfPkg) goSites() []lfGo {
 			}
 			u := p.unitAt(gs)
 			ps := p.fset.Position(gs.Pos())
-			g := lfGo{file: p.rel + "/" + filepath.Base(ps.Filename), line: ps.Line, fn: "package-level"}
+			g := lfGo{file: p.rel + "/" + filepath.Base(ps.Filename), line: ps.Line, fn: "package-level", join: "none"}
 			if u != nil {
 				g.fn = u.name
 			}
@@ -1400,156 +1599,266 @@ func (p *lfPkg) goSites() []lfGo {
 				return true
 			}
 			g.callee = "func literal"
-			// first statement:  defer wg.Done()
-			var wg types.Object
-			if len(lit.Body.List) > 0 {
+
+			// ---- how the goroutine signals that it is finished
+			noReturn := true
+			ast.Inspect(lit.Body, func(m ast.Node) bool {
+				switch m.(type) {
+				case *ast.FuncLit:
+					return false
+				case *ast.ReturnStmt:
+					noReturn = false
+				}
+				return true
+			})
+			var syncObj types.Object
+			kind := "none"
+			signal := func(c *ast.CallExpr) (types.Object, string) {
+				if sel, ok := c.Fun.(*ast.SelectorExpr); ok && sel.Sel.Name == "Done" && lfIsSync(p.info.TypeOf(sel.X), "WaitGroup") {
+					if id, ok := sel.X.(*ast.Ident); ok {
+						return p.info.Uses[id], "waitGroup"
+					}
+				}
+				if id, ok := c.Fun.(*ast.Ident); ok && id.Name == "close" && len(c.Args) == 1 {
+					if _, isB := p.info.Uses[id].(*types.Builtin); isB {
+						if ch, ok := ast.Unparen(c.Args[0]).(*ast.Ident); ok {
+							return p.info.Uses[ch], "chanClose"
+						}
+					}
+				}
+				// func() { ch <- v }()
+				if fl, ok := ast.Unparen(c.Fun).(*ast.FuncLit); ok && len(fl.Body.List) == 1 {
+					if ss, ok := fl.Body.List[0].(*ast.SendStmt); ok {
+						if ch, ok := ast.Unparen(ss.Chan).(*ast.Ident); ok {
+							return p.info.Uses[ch], "chanRecv"
+						}
+					}
+				}
+				return nil, "none"
+			}
+			if nst := len(lit.Body.List); nst > 0 {
 				if ds, ok := lit.Body.List[0].(*ast.DeferStmt); ok {
-					if sel, ok := ds.Call.Fun.(*ast.SelectorExpr); ok && sel.Sel.Name == "Done" && lfIsSync(p.info.TypeOf(sel.X), "WaitGroup") {
-						if id, ok := sel.X.(*ast.Ident); ok {
-							wg = p.info.Uses[id]
-							g.deferDone = true
+					syncObj, kind = signal(ds.Call)
+				}
+				if kind == "none" && noReturn {
+					switch last := lit.Body.List[nst-1].(type) {
+					case *ast.ExprStmt:
+						if c, ok := last.X.(*ast.CallExpr); ok {
+							syncObj, kind = signal(c)
+							if kind == "chanRecv" {
+								syncObj, kind = nil, "none"
+							}
+						}
+					case *ast.SendStmt:
+						if ch, ok := ast.Unparen(last.Chan).(*ast.Ident); ok {
+							syncObj, kind = p.info.Uses[ch], "chanRecv"
 						}
 					}
 				}
 			}
-			// variables of the enclosing function assigned in the goroutine
-			litParams := map[types.Object]int{}
+			if syncObj != nil && (syncObj.Pos() >= lit.Pos() && syncObj.Pos() <= lit.End()) {
+				syncObj, kind = nil, "none" // a channel / WaitGroup local to the goroutine joins nothing
+			}
+
+			// ---- what it writes
+			bind := map[types.Object]lfBinding{}
 			for i, prm := range p.byLit[lit].params {
 				if prm != nil {
-					litParams[prm] = i
+					bind[prm] = lfBinding{slot: i}
 				}
 			}
 			written := map[types.Object]bool{}
 			throughParam := map[int]bool{}
-			ast.Inspect(lit.Body, func(m ast.Node) bool {
-				as, ok := m.(*ast.AssignStmt)
-				if !ok {
-					return true
-				}
-				for _, l := range as.Lhs {
-					root := l
-					for {
-						switch x := ast.Unparen(root).(type) {
-						case *ast.SelectorExpr:
-							root = x.X
-							continue
-						case *ast.IndexExpr:
-							root = x.X
-							continue
-						case *ast.StarExpr:
-							root = x.X
-							continue
-						}
-						break
-					}
-					id, ok := ast.Unparen(root).(*ast.Ident)
-					if !ok {
-						continue
-					}
-					o := p.info.Uses[id]
-					if o == nil {
-						continue // := definition local to the goroutine
-					}
-					if i, isParam := litParams[o]; isParam {
-						if root != l {
-							throughParam[i] = true
-						}
-						continue
-					}
-					if o.Pos() < lit.Pos() || o.Pos() > lit.End() {
-						written[o] = true
-					}
-				}
-				return true
-			})
+			p.goWrites(u, lit, lit, lit.Body, bind, written, throughParam, 0)
 			for o := range written {
 				g.sharedWrites = append(g.sharedWrites, o.Name())
 			}
 			sort.Strings(g.sharedWrites)
-			// slot parameter:  go func(s *T){…}(&xs[i])  inside  for i := range xs
+
+			// ---- slot parameter:  go func(s *T){…}(&xs[i])  inside  for i := range xs / for i := K; …; i++
+			var slotSlice types.Object
+			slotStart := int64(0)
+			loop := p.lfLoopOf(gs)
 			if len(throughParam) > 0 {
 				g.slotParam = true
 				for i := range throughParam {
-					if i-1 >= len(gs.Call.Args) {
-						g.slotParam = false
-						continue
-					}
-					ua, ok := ast.Unparen(gs.Call.Args[i-1]).(*ast.UnaryExpr)
-					if !ok || ua.Op != token.AND {
-						g.slotParam = false
-						continue
-					}
-					ix, ok := ast.Unparen(ua.X).(*ast.IndexExpr)
-					if !ok {
-						g.slotParam = false
-						continue
-					}
-					iv, ok := ast.Unparen(ix.Index).(*ast.Ident)
-					loopOK := false
-					if ok {
-						for x := p.parent[ast.Node(gs)]; x != nil; x = p.parent[x] {
-							if rs, ok := x.(*ast.RangeStmt); ok {
-								if k, ok := rs.Key.(*ast.Ident); ok && p.info.Defs[k] == p.info.Uses[iv] && p.src(rs.X) == p.src(ix.X) {
-									loopOK = true
+					okSlot := false
+					if i-1 < len(gs.Call.Args) {
+						if ua, ok := ast.Unparen(gs.Call.Args[i-1]).(*ast.UnaryExpr); ok && ua.Op == token.AND {
+							if ix, ok := ast.Unparen(ua.X).(*ast.IndexExpr); ok {
+								iv, ok1 := ast.Unparen(ix.Index).(*ast.Ident)
+								sid, ok2 := ast.Unparen(ix.X).(*ast.Ident)
+								if ok1 && ok2 {
+									switch l := loop.(type) {
+									case *ast.RangeStmt:
+										if k, ok := l.Key.(*ast.Ident); ok && p.info.Defs[k] == p.info.Uses[iv] && p.src(l.X) == p.src(ix.X) {
+											okSlot = true
+										}
+									case *ast.ForStmt:
+										// for i := K; cond; i++   (i not assigned in the body)
+										init, ok3 := l.Init.(*ast.AssignStmt)
+										post, ok4 := l.Post.(*ast.IncDecStmt)
+										if ok3 && ok4 && init.Tok == token.DEFINE && len(init.Lhs) == 1 && post.Tok == token.INC {
+											k, ok5 := init.Lhs[0].(*ast.Ident)
+											pi, ok6 := post.X.(*ast.Ident)
+											if ok5 && ok6 && p.info.Defs[k] == p.info.Uses[iv] && p.info.Uses[pi] == p.info.Defs[k] {
+												assigned := false
+												ast.Inspect(l.Body, func(q ast.Node) bool {
+													if as, ok := q.(*ast.AssignStmt); ok {
+														for _, lh := range as.Lhs {
+															if id, ok := lh.(*ast.Ident); ok && p.info.Uses[id] == p.info.Defs[k] {
+																assigned = true
+															}
+														}
+													}
+													return true
+												})
+												if !assigned {
+													okSlot = true
+													if tv := p.info.Types[init.Rhs[0]]; tv.Value != nil {
+														slotStart, _ = constant.Int64Val(tv.Value)
+													}
+												}
+											}
+										}
+									}
+									if okSlot {
+										slotSlice = p.info.Uses[sid]
+									}
 								}
 							}
 						}
 					}
-					if !loopOK {
+					if !okSlot {
 						g.slotParam = false
-					} else if sid, ok := ast.Unparen(ix.X).(*ast.Ident); ok {
-						// the slice holding the slots must not be touched before the join either
-						if o := p.info.Uses[sid]; o != nil {
-							written[o] = true
+					}
+				}
+			}
+
+			// ---- the join: a statement at the top level of the spawning function, after the spawn
+			var joinFrom, joinEnd token.Pos
+			if syncObj != nil && u != nil {
+				for _, st := range u.body.List {
+					if st.Pos() < gs.End() || g.joinLine != 0 {
+						continue
+					}
+					switch kind {
+					case "waitGroup":
+						if es, ok := st.(*ast.ExprStmt); ok {
+							if c, ok := es.X.(*ast.CallExpr); ok {
+								if sel, ok := c.Fun.(*ast.SelectorExpr); ok && sel.Sel.Name == "Wait" {
+									if id, ok := sel.X.(*ast.Ident); ok && p.info.Uses[id] == syncObj {
+										g.joinLine, joinFrom, joinEnd = p.fset.Position(st.Pos()).Line, st.Pos(), st.End()
+									}
+								}
+							}
+						}
+					case "chanClose":
+						if p.lfRecvFrom(st, syncObj) {
+							g.joinLine, joinFrom, joinEnd = p.fset.Position(st.Pos()).Line, st.Pos(), st.End()
+						}
+					case "chanRecv":
+						if loop == nil {
+							if p.lfRecvFrom(st, syncObj) {
+								g.joinLine, joinFrom, joinEnd = p.fset.Position(st.Pos()).Line, st.Pos(), st.End()
+							}
+							continue
+						}
+						// one receive per spawned goroutine: a loop with the same header whose body
+						// receives exactly once, unconditionally
+						var lbody *ast.BlockStmt
+						switch l2 := st.(type) {
+						case *ast.RangeStmt:
+							lbody = l2.Body
+						case *ast.ForStmt:
+							lbody = l2.Body
+						}
+						if lbody == nil || !p.lfSameLoop(loop, st) {
+							continue
+						}
+						nrecv := 0
+						for _, bs := range lbody.List {
+							if p.lfRecvFrom(bs, syncObj) {
+								nrecv++
+							}
+						}
+						if nrecv == 1 {
+							g.joinLine, joinFrom, joinEnd = p.fset.Position(st.Pos()).Line, st.Pos(), st.End()
 						}
 					}
 				}
 			}
-			// the Wait that joins it: a later statement  wg.Wait()  in an enclosing block of the unit
-			if wg != nil && u != nil {
-				ast.Inspect(u.body, func(m ast.Node) bool {
-					if _, ok := m.(*ast.FuncLit); ok {
+			if g.joinLine != 0 {
+				g.join = kind
+				_ = joinFrom
+				// nothing the goroutine writes may be used by the spawner or a sibling before the join
+				// is complete; of the slot slice only len/cap and constant slots below the loop start
+				touched := func(id *ast.Ident) bool {
+					o := p.info.Uses[id]
+					if o == nil {
 						return false
 					}
-					es, ok := m.(*ast.ExprStmt)
-					if !ok {
+					if written[o] {
 						return true
 					}
-					c, ok := es.X.(*ast.CallExpr)
-					if !ok {
-						return true
+					if o != slotSlice || slotSlice == nil {
+						return false
 					}
-					sel, ok := c.Fun.(*ast.SelectorExpr)
-					if !ok || sel.Sel.Name != "Wait" {
-						return true
-					}
-					if id, ok := sel.X.(*ast.Ident); ok && p.info.Uses[id] == wg && es.Pos() > gs.End() && g.waitLine == 0 {
-						// the Wait must not be nested deeper than the go statement's loop
-						if _, top := p.parent[es].(*ast.BlockStmt); top && p.parent[p.parent[es]] == ast.Node(lfUnitNode(u)) {
-							g.waitLine = p.fset.Position(es.Pos()).Line
-							// uses of the shared variables between the go statement and the Wait
-							ast.Inspect(u.body, func(k ast.Node) bool {
-								if k == ast.Node(lit) {
+					switch par := p.parent[id].(type) {
+					case *ast.CallExpr:
+						if fn, ok := par.Fun.(*ast.Ident); ok && (fn.Name == "len" || fn.Name == "cap") {
+							if _, isB := p.info.Uses[fn].(*types.Builtin); isB {
+								return false
+							}
+						}
+					case *ast.IndexExpr:
+						if par.X == ast.Expr(id) {
+							if tv := p.info.Types[par.Index]; tv.Value != nil {
+								if c, ok := constant.Int64Val(tv.Value); ok && c >= 0 && c < slotStart {
 									return false
 								}
-								if fl, ok := k.(*ast.FuncLit); ok {
-									// sibling goroutines: their writes must be to other variables
-									if _, isGo := p.parent[p.parent[fl]].(*ast.GoStmt); isGo {
-										ast.Inspect(fl.Body, func(q ast.Node) bool {
-											if id, ok := q.(*ast.Ident); ok && written[p.info.Uses[id]] {
-												g.touchedBefore = true
-											}
-											return true
-										})
-									}
-									return false
-								}
-								if id, ok := k.(*ast.Ident); ok && id.Pos() > gs.End() && id.Pos() < es.Pos() && written[p.info.Uses[id]] {
+							}
+						}
+					}
+					return true
+				}
+				from := gs.End()
+				ast.Inspect(u.body, func(k ast.Node) bool {
+					if k == ast.Node(gs) {
+						return false
+					}
+					if fl, ok := k.(*ast.FuncLit); ok {
+						// sibling goroutines: their writes must be to other variables
+						if _, isGo := p.parent[p.parent[fl]].(*ast.GoStmt); isGo {
+							ast.Inspect(fl.Body, func(q ast.Node) bool {
+								if id, ok := q.(*ast.Ident); ok && written[p.info.Uses[id]] {
 									g.touchedBefore = true
 								}
 								return true
 							})
 						}
+						return false
+					}
+					id, ok := k.(*ast.Ident)
+					if !ok {
+						return true
+					}
+					inWindow := id.Pos() > from && id.Pos() < joinEnd
+					if loop != nil && id.Pos() > loop.Pos() && id.Pos() < loop.End() {
+						// inside the spawning loop: earlier iterations' goroutines are already running
+						var lb *ast.BlockStmt
+						switch l := loop.(type) {
+						case *ast.RangeStmt:
+							lb = l.Body
+						case *ast.ForStmt:
+							lb = l.Body
+						}
+						if lb != nil && id.Pos() > lb.Pos() {
+							inWindow = true
+						}
+					}
+					if inWindow && touched(id) {
+						g.touchedBefore = true
 					}
 					return true
 				})
@@ -1678,6 +1987,9 @@ func genLockFacts(e *Env) (string, error) {
 				if r.deferred {
 					shape = "defer"
 				}
+				if r.read {
+					shape = "read-" + shape
+				}
 				regions = append(regions, regionRow{lfGuardName(p, r.guard), u.name, shape, p.where(r.lockPos)})
 			}
 			for _, d := range u.onceDos {
@@ -1712,31 +2024,35 @@ func genLockFacts(e *Env) (string, error) {
 			if spec.kind == "once" {
 				want = "Once"
 			}
-			if !lfIsSync(g.Type(), want) {
+			if !lfIsSync(g.Type(), want) && !(spec.kind == "mutex" && lfIsSync(g.Type(), "RWMutex")) {
 				errs = append(errs, fmt.Sprintf("%s: guard %s.%s is not a sync.%s but %s", rel, spec.gOwn, spec.guard, want, g.Type()))
 				continue
 			}
-			var conf, ob, ao map[*lfUnit]bool
+			var conf, confR, ob, ao map[*lfUnit]bool
 			if spec.kind == "mutex" {
-				conf = p.confined(func(c *lfCall) bool {
-					if c.caller == nil || c.isRef {
-						return false
-					}
-					r := c.caller.heldAt(c.pos, g)
-					if r == nil {
-						return false
-					}
-					if r.base == "" {
-						return true
-					}
-					// the locked object must be handed to the callee (receiver or argument)
-					for _, a := range c.args {
-						if a != nil && p.src(a) == r.base {
+				held := func(needWrite bool) func(c *lfCall) bool {
+					return func(c *lfCall) bool {
+						if c.caller == nil || c.isRef {
+							return false
+						}
+						r := c.caller.heldAt(c.pos, g)
+						if r == nil || (needWrite && r.read) {
+							return false
+						}
+						if r.base == "" {
 							return true
 						}
+						// the locked object must be handed to the callee (receiver or argument)
+						for _, a := range c.args {
+							if a != nil && p.src(a) == r.base {
+								return true
+							}
+						}
+						return false
 					}
-					return false
-				})
+				}
+				conf = p.confined(held(true))   // only reachable with the write lock held
+				confR = p.confined(held(false)) // only reachable with the read or the write lock held
 			} else {
 				ob = p.confined(func(c *lfCall) bool { return c.caller != nil && c.caller.onceBody == g })
 				ao = p.confined(func(c *lfCall) bool {
@@ -1753,7 +2069,7 @@ func genLockFacts(e *Env) (string, error) {
 				}
 				t := &lfTarget{spec: spec, v: v, guard: g, name: name}
 				guardRows = append(guardRows, [3]string{name, lfGuardName(p, g), spec.kind})
-				ss := p.sitesOf(t, fr, conf, ob, ao)
+				ss := p.sitesOf(t, fr, conf, confR, ob, ao)
 				if len(ss) == 0 {
 					errs = append(errs, fmt.Sprintf("%s: no access site of %s found", rel, name))
 				}
@@ -1770,7 +2086,7 @@ func genLockFacts(e *Env) (string, error) {
 			}
 			for _, v := range vars {
 				t := &lfTarget{spec: lfGuardSpec{kind: "none"}, v: v, guard: v, name: p.pkg.Name() + "." + im.typ + "." + v.Name()}
-				for _, s := range p.sitesOf(t, fr, nil, nil, nil) {
+				for _, s := range p.sitesOf(t, fr, nil, nil, nil, nil) {
 					if s.write {
 						s.guard = ""
 						immut = append(immut, s)
@@ -1906,7 +2222,7 @@ func genLockFacts(e *Env) (string, error) {
 		if i > 0 {
 			b.WriteString(",\n")
 		}
-		fmt.Fprintf(&b, "  ⟨%s, %s, %d, %s, %t, %d, %s, %t, %t⟩", leanStr(g.fn), leanStr(g.file), g.line, leanStr(g.callee), g.deferDone, g.waitLine, lfLeanList(g.sharedWrites), g.touchedBefore, g.slotParam)
+		fmt.Fprintf(&b, "  ⟨%s, %s, %d, %s, .%s, %d, %s, %t, %t⟩", leanStr(g.fn), leanStr(g.file), g.line, leanStr(g.callee), g.join, g.joinLine, lfLeanList(g.sharedWrites), g.touchedBefore, g.slotParam)
 	}
 	b.WriteString("]\n\n")
 	fmt.Fprintf(&b, "/-- flags newTempFile passes to os.OpenFile (%s) and the os constants of this platform -/\n", temp.where)
